@@ -206,7 +206,8 @@ ResMatches(spec, logged) ==
   \/ spec = "Error" /\ logged \in ErrClasses
 
 OpOf(e) == [k |-> e.op.k, id |-> e.op.id, id2 |-> e.op.id2,
-            l |-> IF e.op.l >= 1 THEN Pool[e.op.l] ELSE [rt |-> "none"]]
+            l |-> IF e.op.l >= 1 THEN Pool[e.op.l] ELSE [rt |-> "none"],
+            ls |-> IF e.op.k = "load" THEN [i \in DOMAIN e.op.ls |-> Pool[e.op.ls[i]]] ELSE <<>>]
 
 ResFails(outs, e) ==
   IF e.res = "FOREIGN" THEN {"foreign"}
